@@ -222,7 +222,7 @@ def main(argv=None):
     kani_res = None
     if cfg.get("kani") == "leaves":
         from . import kani as K
-        nb = 4 if tier == "quick" else 6
+        nb = 4 if tier == "quick" else 8   # 8 bytes = two characters of maximal width: everything peek / peek2 / step can read from pos
         kani_res = K.run_leaves(REPO, nb)
         solver_time["LEAVES(kani)"] = dict(wall_s=round(kani_res.get("wall_s", 0), 2), cbmc_s={h: r.get("time_s") for h, r in kani_res.get("harnesses", {}).items()})
         for x in kani_res["undecided"]:
